@@ -12,17 +12,17 @@ import SpiceEv.Time
 namespace SpiceEv
 
 /-- insertion-ordered dict helpers -/
-def alGet {β : Type} : List (String × β) → String → Option β
+def sdGet {β : Type} : List (String × β) → String → Option β
   | [], _ => none
-  | (k', v') :: rest, k => if k' == k then some v' else alGet rest k
+  | (k', v') :: rest, k => if k' == k then some v' else sdGet rest k
 
-def alSet {β : Type} : List (String × β) → String → β → List (String × β)
+def sdSet {β : Type} : List (String × β) → String → β → List (String × β)
   | [], k, v => [(k, v)]
-  | (k', v') :: rest, k, v => if k' == k then (k', v) :: rest else (k', v') :: alSet rest k v
+  | (k', v') :: rest, k, v => if k' == k then (k', v) :: rest else (k', v') :: sdSet rest k v
 
 /-- `dict.update(other)` -/
-def alUpdate {β : Type} (l other : List (String × β)) : List (String × β) :=
-  other.foldl (fun acc kv => alSet acc kv.1 kv.2) l
+def sdUpdate {β : Type} (l other : List (String × β)) : List (String × β) :=
+  other.foldl (fun acc kv => sdSet acc kv.1 kv.2) l
 
 /-- what the strategies need from a battery (`spice_ev/battery.py`) -/
 structure BatOps (α : Type) (B : Type) where
@@ -57,7 +57,7 @@ structure StationS (α : Type) where
 structure GcS (α : Type) where
   id : String
   curMax : α
-  cost : Option (Cost α)             -- `gc.cost` ({} is modelled as none)
+  cost : Option (GcCost α)             -- `gc.cost` ({} is modelled as none)
   loads : List (String × α)          -- current_loads
 
 structure StatBatS (α B : Type) where
@@ -66,7 +66,7 @@ structure StatBatS (α B : Type) where
   minChargingPower : α
   bat : B
 
-structure World (α B : Type) where
+structure SWorld (α B : Type) where
   gcs : List (GcS α)                 -- insertion order
   stations : List (StationS α)
   vehicles : List (VehicleS α B)     -- insertion order of `world_state.vehicles`
@@ -88,21 +88,21 @@ def GcS.currentLoad (g : GcS α) : α := g.loads.foldl (fun a kv => a + kv.2) 0
 
 /-- `gc.add_load(key, value)` ↦ (gc', updated value) -/
 def GcS.addLoad (g : GcS α) (k : String) (v : α) : GcS α × α :=
-  match alGet g.loads k with
-  | some old => ({ g with loads := alSet g.loads k (old + v) }, old + v)
+  match sdGet g.loads k with
+  | some old => ({ g with loads := sdSet g.loads k (old + v) }, old + v)
   | none => ({ g with loads := g.loads ++ [(k, v)] }, v)
 
-def World.gc? (w : World α B) (id : String) : Option (GcS α) := w.gcs.find? (·.id == id)
-def World.station? (w : World α B) (id : String) : Option (StationS α) := w.stations.find? (·.id == id)
-def World.vehicle? (w : World α B) (id : String) : Option (VehicleS α B) := w.vehicles.find? (·.id == id)
+def SWorld.gc? (w : SWorld α B) (id : String) : Option (GcS α) := w.gcs.find? (·.id == id)
+def SWorld.station? (w : SWorld α B) (id : String) : Option (StationS α) := w.stations.find? (·.id == id)
+def SWorld.vehicle? (w : SWorld α B) (id : String) : Option (VehicleS α B) := w.vehicles.find? (·.id == id)
 
-def World.setGc (w : World α B) (g : GcS α) : World α B :=
+def SWorld.setGc (w : SWorld α B) (g : GcS α) : SWorld α B :=
   { w with gcs := w.gcs.map (fun x => if x.id == g.id then g else x) }
-def World.setStation (w : World α B) (s : StationS α) : World α B :=
+def SWorld.setStation (w : SWorld α B) (s : StationS α) : SWorld α B :=
   { w with stations := w.stations.map (fun x => if x.id == s.id then s else x) }
-def World.setVehicle (w : World α B) (v : VehicleS α B) : World α B :=
+def SWorld.setVehicle (w : SWorld α B) (v : VehicleS α B) : SWorld α B :=
   { w with vehicles := w.vehicles.map (fun x => if x.id == v.id then v else x) }
-def World.setBattery (w : World α B) (b : StatBatS α B) : World α B :=
+def SWorld.setBattery (w : SWorld α B) (b : StatBatS α B) : SWorld α B :=
   { w with batteries := w.batteries.map (fun x => if x.id == b.id then b else x) }
 
 /-- `get_cost(1, gc.cost) <= self.PRICE_THRESHOLD`; `gc.cost == {}` raises KeyError -/
@@ -113,8 +113,8 @@ def gcCheap (env : StratEnv α) (g : GcS α) : Py Bool :=
 
 /-- the per-vehicle body of `distribute_surplus_power` -/
 def surplusVehicle (ops : BatOps α B) (env : StratEnv α) (cheap : List (String × Bool))
-    (w : World α B) (cmds : List (String × α)) (v : VehicleS α B) :
-    Py (World α B × List (String × α)) :=
+    (w : SWorld α B) (cmds : List (String × α)) (v : VehicleS α B) :
+    Py (SWorld α B × List (String × α)) :=
   match v.cs with
   | none => .ok (w, cmds)
   | some csId =>
@@ -131,10 +131,10 @@ def surplusVehicle (ops : BatOps α B) (env : StratEnv α) (cheap : List (String
           let (gc', val) := gc.addLoad csId avg
           let w := (w.setVehicle { v with bat := bat' }).setGc gc'
           let w := w.setStation { cs with currentPower := cs.currentPower + avg }
-          .ok (w, alSet cmds csId val)
+          .ok (w, sdSet cmds csId val)
         else
-          let csLoad : α := (alGet gc.loads csId).getD 0
-          let isCheap := (alGet cheap cs.parent).getD false
+          let csLoad : α := (sdGet gc.loads csId).getD 0
+          let isCheap := (sdGet cheap cs.parent).getD false
           if surplus < -env.eps ∧ v.desiredSoc - ops.soc v.bat < -env.eps ∧ v.v2g = true
               ∧ csLoad < env.eps ∧ isCheap = false then do
             let dischargePower := pymin (pymin (-surplus) (ops.unloadMaxPower v.bat)) cs.maxPower
@@ -143,14 +143,14 @@ def surplusVehicle (ops : BatOps α B) (env : StratEnv α) (cheap : List (String
             let (gc', val) := gc.addLoad csId (-avg)
             let w := (w.setVehicle { v with bat := bat' }).setGc gc'
             let w := w.setStation { cs with currentPower := cs.currentPower - avg }
-            .ok (w, alSet cmds csId val)
+            .ok (w, sdSet cmds csId val)
           else .ok (w, cmds)
 
 /-- `Strategy.distribute_surplus_power()` (vehicles in dict order, state re-read per vehicle) -/
-def distributeSurplus (ops : BatOps α B) (env : StratEnv α) (w : World α B) :
-    Py (World α B × List (String × α)) := do
+def distributeSurplus (ops : BatOps α B) (env : StratEnv α) (w : SWorld α B) :
+    Py (SWorld α B × List (String × α)) := do
   let cheap ← w.gcs.mapM (fun g => do let c ← gcCheap env g; pure (g.id, c))
-  w.vehicles.foldlM (fun (st : World α B × List (String × α)) v0 =>
+  w.vehicles.foldlM (fun (st : SWorld α B × List (String × α)) v0 =>
     -- the loop body reads the *current* vehicle object
     match st.1.vehicle? v0.id with
     | none => .ok st
@@ -158,12 +158,12 @@ def distributeSurplus (ops : BatOps α B) (env : StratEnv α) (w : World α B) :
 
 /-- the per-battery body of `update_batteries` -/
 def updateBattery (ops : BatOps α B) (_env : StratEnv α) (cheap : List (String × Bool))
-    (w : World α B) (b : StatBatS α B) : Py (World α B) :=
+    (w : SWorld α B) (b : StatBatS α B) : Py (SWorld α B) :=
   match w.gc? b.parent with
   | none => .ok w
   | some gc => do
     let load := gc.currentLoad
-    match alGet cheap b.parent with
+    match sdGet cheap b.parent with
     | none => .error .keyError
     | some isCheap =>
       if isCheap then
@@ -181,7 +181,7 @@ def updateBattery (ops : BatOps α B) (_env : StratEnv α) (cheap : List (String
         .ok ((w.setBattery { b with bat := bat' }).setGc (gc.addLoad b.id (-avg)).1)
 
 /-- `Strategy.update_batteries()` -/
-def updateBatteries (ops : BatOps α B) (env : StratEnv α) (w : World α B) : Py (World α B) := do
+def updateBatteries (ops : BatOps α B) (env : StratEnv α) (w : SWorld α B) : Py (SWorld α B) := do
   let cheap ← w.gcs.mapM (fun g => do let c ← gcCheap env g; pure (g.id, c))
   w.batteries.foldlM (fun w b0 =>
     match w.batteries.find? (·.id == b0.id) with
@@ -189,17 +189,17 @@ def updateBatteries (ops : BatOps α B) (env : StratEnv α) (w : World α B) : P
     | some b => updateBattery ops env cheap w b) w
 
 /-- `avail_bat_power[gcID]`: sum of `get_available_power` of the batteries at each connector -/
-def availBatPower (ops : BatOps α B) (w : World α B) : Py (List (String × α)) :=
+def availBatPower (ops : BatOps α B) (w : SWorld α B) : Py (List (String × α)) :=
   w.gcs.mapM (fun g => do
     let p ← w.batteries.foldlM (fun (acc : α) b =>
       if b.parent == g.id then do let a ← ops.available b.bat; pure (acc + a) else pure acc) 0
     pure (g.id, p))
 
-def resetStations (w : World α B) : World α B :=
+def resetStations (w : SWorld α B) : SWorld α B :=
   { w with stations := w.stations.map (fun s => { s with currentPower := 0 }) }
 
 /-- stable sort of the vehicle ids (`sorted(self.world_state.vehicles)`) -/
-def sortedVehicleIds (w : World α B) : List String :=
+def sortedVehicleIds (w : SWorld α B) : List String :=
   (w.vehicles.map (·.id)).mergeSort (fun a b => decide (a ≤ b))
 
 inductive Rule where | greedy | balanced
@@ -241,8 +241,8 @@ def chargeCall (rule : Rule) (ops : BatOps α B) (env : StratEnv α) (cheap : Bo
 
 /-- the per-vehicle body of `Greedy.step` / `Balanced.step` -/
 def allocVehicle (rule : Rule) (ops : BatOps α B) (env : StratEnv α)
-    (st : World α B × List (String × α) × List (String × α)) (vid : String) :
-    Py (World α B × List (String × α) × List (String × α)) :=
+    (st : SWorld α B × List (String × α) × List (String × α)) (vid : String) :
+    Py (SWorld α B × List (String × α) × List (String × α)) :=
   match st.1.vehicle? vid with
   | none => .error .keyError
   | some v =>
@@ -257,24 +257,24 @@ def allocVehicle (rule : Rule) (ops : BatOps α B) (env : StratEnv α)
         | some gc => do
           let gcPowerLeft := gc.curMax - gc.currentLoad
           let cheap ← gcCheap env gc
-          let availGc : α := (alGet st.2.2 cs.parent).getD 0
+          let availGc : α := (sdGet st.2.2 cs.parent).getD 0
           let (power, batUsed) ← planPower rule ops env cheap gcPowerLeft availGc cs v
           let (bat', avg) ← chargeCall rule ops env cheap v power
           let (gc', val) := gc.addLoad csId avg
           let w := (st.1.setVehicle { v with bat := bat' }).setGc gc'
           let w := w.setStation { cs with currentPower := cs.currentPower + avg }
-          let avail := if batUsed then alSet st.2.2 cs.parent (pymax (availGc - avg) 0) else st.2.2
-          .ok (w, alSet st.2.1 csId val, avail)
+          let avail := if batUsed then sdSet st.2.2 cs.parent (pymax (availGc - avg) 0) else st.2.2
+          .ok (w, sdSet st.2.1 csId val, avail)
 
 /-- `Greedy.step()` / `Balanced.step()` ↦ (world', commands) -/
-def ruleStep (rule : Rule) (ops : BatOps α B) (env : StratEnv α) (w : World α B) :
-    Py (World α B × List (String × α)) := do
+def ruleStep (rule : Rule) (ops : BatOps α B) (env : StratEnv α) (w : SWorld α B) :
+    Py (SWorld α B × List (String × α)) := do
   let avail ← availBatPower ops w
   let w := resetStations w
   let (w, cmds, _) ← (sortedVehicleIds w).foldlM (allocVehicle rule ops env) (w, [], avail)
   let (w, cmds2) ← distributeSurplus ops env w
   let w ← updateBatteries ops env w
-  .ok (w, alUpdate cmds cmds2)
+  .ok (w, sdUpdate cmds cmds2)
 
 end
 end SpiceEv
